@@ -171,6 +171,8 @@ def pm_cover_rules(ck, P, rule="R-COVER-PM"):
 
 
 def rules(ck, P):
+    from . import boxalg as _boxalg
+    _boxalg.box_core_rules(ck, P)
     pair_rule(ck, P, "::TarTilesReader", "tar")
     pair_rule(ck, P, "::DirectoryTilesReader", "directory")
 
